@@ -125,6 +125,8 @@ pub fn probe(items: Vec<Item>, kept: &[Kept]) -> Result<(), String> {
 
 fn data_for(d: DataPart, header: usize) -> Vec<u8> {
     let m = OsIpcSender::get_max_fragment_size();
+    // in-process transport: no packets; use the sizes of the 4608-byte configuration
+    let m = if m == usize::MAX { 4568 } else { m };
     let n = match d {
         DataPart::Empty => 0,
         DataPart::Small => 40,
